@@ -19,7 +19,8 @@ RULE = ('seeded random pva: |lat|<=85, lon incl. the +-180 region, alt 0..20 km,
         'roll/heading anywhere, |pitch|<=85 (class steep: 70..85); random internal error vectors at scale '
         's0 = (10 m, 1 m/s, 0.5 deg) and 5 halvings; both altitude modes; a fifth of the Pva series with their labels in another order; every other case on a long-lived model with a long-lived Pva object overwritten in place; non-trivial = not the single '
         'hand-written state of the existing test; distinct = generator parameters'
-        ' Round 4: the output transform of a 4-row Trajectory table against the per-row matrices (and its 2-D zero rows); closed ends of the domain (|lat| = 85, |pitch| = 85, zero / 300 m/s velocity, cardinal roll / heading).')
+        ' Round 4: the output transform of a 4-row Trajectory table against the per-row matrices (and its 2-D zero rows); closed ends of the domain (|lat| = 85, |pitch| = 85, zero / 300 m/s velocity, cardinal roll / heading).'
+        ' Round 5: with_altitude as bool or numpy.bool_; the angle differences reported by compute_state_difference must themselves lie in (-180, 180] (no own re-wrapping), roll / heading within 0.01 deg of the cut.')
 ASSUMPTIONS = ['second order is decided by extracting the first-order coefficient of the residual (Richardson on rungs 1/4, 1/8, 1/16) '
                'and requiring it below 1e-5 of the linear term; log-log slopes are recorded as evidence only']
 REQUIRED_OBS = ['difference_angles_in_range_checked', 'table_form_compared', 'pva_labels_permuted', 'reused_model_and_pva_object', 'tiny_corrections', 'left_inverse', 'correct_ladder', 'perturb_correct_ladder', 'twoD_rows_zero', 'twoD_alt_vd_frozen',
